@@ -65,6 +65,11 @@ Proof.
 Qed.
 
 (* ranks never exceed the spectrum length nor rmax, and are at least 1 *)
-Theorem rank_bounds (S : list Q) d2 rmax : (1 <= rmax)%nat -> (1 <= length S)%nat ->
-  (1 <= choose_rank S d2 rmax <= Nat.min rmax (length S))%nat.
+Theorem rank_bounds (S : list Q) d2 rmax null : (1 <= rmax)%nat -> (1 <= length S)%nat ->
+  (1 <= choose_rank S d2 rmax null <= Nat.min rmax (length S))%nat.
 Proof. intros H1 H2. unfold choose_rank. lia. Qed.
+
+(* at least the budgeted number of values and at least the null directions are dropped (unless that would leave rank 0) *)
+Theorem rank_drops (S : list Q) d2 rmax null : (Nat.max null (ndrop S d2) < length S)%nat ->
+  (choose_rank S d2 rmax null <= length S - ndrop S d2 /\ choose_rank S d2 rmax null <= length S - null)%nat.
+Proof. intros H. unfold choose_rank. lia. Qed.
